@@ -28,9 +28,13 @@ pub fn print_child(threads: usize, calls: usize, stream: &str) {
                     writeln!(anstream::stderr()).unwrap();
                     anstream::eprint!("\n");
                 }
+                // one stream object per thread that is kept and reused for some of the calls (state carried by the object must not
+                // delay bytes of a finished call)
+                let mut kept_out = anstream::stdout();
+                let mut kept_err = anstream::stderr();
                 for c in 1..=calls {
                     let pad = "x".repeat(r.below(40));
-                    let kind = (c + t) % 9;
+                    let kind = (c + t) % 11;
                     // calls that end with a newline of their own (println!, a "\n" in the format string, writeln!, a record ending in
                     // "\n") announce 4 fragments: the newline right after the third is the fourth and belongs to the same call
                     let n = if matches!(kind, 0 | 1 | 2 | 4) { 4 } else { 3 };
@@ -55,6 +59,26 @@ pub fn print_child(threads: usize, calls: usize, stream: &str) {
                             let a = format!("{}\x1b[3", frag(t, c, 1, 3, &big1));
                             let b = format!("1m{}", frag(t, c, 2, 3, &big2));
                             if stream == "stdout" { anstream::print!("{}{}{}", a, b, d) } else { anstream::eprint!("{}{}{}", a, b, d) }
+                        }
+                        9 => {
+                            // ONE formatted print whose arguments contain line breaks: still one call
+                            let a2 = format!("{}\n\x1b[3", frag(t, c, 1, 3, &pad));
+                            let b2 = format!("1m\n{}", frag(t, c, 2, 3, "\x1b[0mmid\n"));
+                            if stream == "stdout" { anstream::print!("{}{}{}", a2, b2, d) } else { anstream::eprint!("{}{}{}", a2, b2, d) }
+                        }
+                        10 => {
+                            // write_all on the KEPT stream object of a buffer that ends inside a multi-byte character (the first two bytes
+                            // of U+20AC); the third byte opens the next buffer.  The two leading bytes belong to THIS call.
+                            let mut rec = frag(t, c, 1, 2, &pad).into_bytes();
+                            rec.extend_from_slice(b"\xe2\x82");
+                            let rest = b"\xac\n";
+                            if stream == "stdout" {
+                                kept_out.write_all(&rec).unwrap();
+                                kept_out.write_all(rest).unwrap();
+                            } else {
+                                kept_err.write_all(&rec).unwrap();
+                                kept_err.write_all(rest).unwrap();
+                            }
                         }
                         7 => {
                             // a stream built over a BORROWED process stream locks it per call just the same
